@@ -63,7 +63,6 @@ def oracle_sweep(ctx, c, domain, drv_args, oracle, covered_by=()):
     if c.err:
         return 0
     hits = 0
-    known = K.known_ids(ctx.pid)
     for cs in c.cases:
         rep = K.case_replay(c, cs)
         r = oracle(rep)
@@ -71,8 +70,8 @@ def oracle_sweep(ctx, c, domain, drv_args, oracle, covered_by=()):
             continue
         fid, text = r
         hits += 1
-        if fid and fid in known and fid in getattr(ctx, "confirmed", {}):
-            continue
+        if fid and fid in getattr(ctx, "confirmed", {}):
+            continue    # decide_standard already reported it (as KNOWN-FINDING or as VIOLATION)
         if fid and fid in covered_by:
             continue
         rep.update({"correspondence": domain, "drv_args": list(drv_args), "oracle": text})
